@@ -22,6 +22,7 @@ func oracleC05(p *Plan, res *Result) *common.Fail {
 	}
 	var sends []*snd
 	cur := map[int]*snd{}
+	refused := map[int]bool{} // telegrams the gateway took (its counter advanced) but kept off the bus
 	var gwAcked, reads []int
 	readCount := map[int]int{}
 	for i, e := range evs {
@@ -47,6 +48,10 @@ func oracleC05(p *Plan, res *Result) *common.Fail {
 				s.err, s.i1, s.done = e.Err, i, e.T
 				delete(cur, e.Tag)
 			}
+		case "note":
+			if strings.HasPrefix(e.Note, "gateway refuses this telegram") {
+				refused[e.Tag] = true
+			}
 		case "gwacked":
 			gwAcked = append(gwAcked, e.Tag)
 		case "read":
@@ -71,7 +76,7 @@ func oracleC05(p *Plan, res *Result) *common.Fail {
 			for _, a := range sends[:k] {
 				// the earlier Send gave up without an acknowledgement (response timeout, or a socket error on a
 				// retransmission) although one of its transmissions had reached the gateway
-				if _, aOn := busPos[a.tag]; aOn && (isTimeoutErr(a.err) || strings.Contains(a.err, "scripted socket error")) && a.seq == s.seq {
+				if _, aOn := busPos[a.tag]; (aOn || refused[a.tag]) && (isTimeoutErr(a.err) || strings.Contains(a.err, "scripted socket error")) && a.seq == s.seq {
 					f.Known = "seq-reuse-after-timeout"
 					f.Detail += fmt.Sprintf(" [sequence number %d was re-used: Send(telegram %d) had failed with %q although the gateway had accepted it]", s.seq, a.tag, a.err)
 					break
@@ -150,6 +155,14 @@ func genPlanC05(rt *rapid.T) *Plan {
 	if n > 0 {
 		p.Senders = [][]AppStep{lane}
 	}
+	if n > 1 && rapid.IntRange(0, 3).Draw(rt, "refusals") == 0 {
+		// the gateway refuses some telegrams (error status; its counter advances all the same)
+		for i := 0; i < n; i++ {
+			if rapid.IntRange(0, 5).Draw(rt, "refuse") == 0 {
+				ref.Refuse = append(ref.Refuse, i+1)
+			}
+		}
+	}
 	for i := 0; i < m; i++ {
 		ref.Bus = append(ref.Bus, BusStep{AfterUs: rapid.SampledFrom([]int{0, 0, 1, rms}).Draw(rt, "bus-gap")*1000 + 211, Tag: 100000 + i})
 	}
@@ -158,6 +171,13 @@ func genPlanC05(rt *rapid.T) *Plan {
 		for i := 0; i < rapid.IntRange(1, 4).Draw(rt, "n-sock-fail"); i++ {
 			p.FailOut = append(p.FailOut, rapid.IntRange(0, 2*(n+m)+2).Draw(rt, "sock-fail-at"))
 		}
+	}
+	if len(ref.Refuse) > 0 {
+		// Refusals are judged on a link that loses and repeats nothing: when the error acknowledgement of a refused
+		// request is lost, its repetition is acknowledged as a duplicate with status OK (that is what the tunnelling
+		// rules say about the previous number) and the client cannot know better - a weakness of the protocol, not of
+		// the client.
+		ref.C2G, ref.G2C, p.FailOut = nil, nil, nil
 	}
 	p.Consumer = []ConStep{{AfterUs: 50, Kind: "drain"}}
 	if rapid.IntRange(0, 3).Draw(rt, "slow-reader") == 0 {
